@@ -7,10 +7,10 @@ MORE = {
            "special code points as text / binary / close reason, an earlier connection, a second live connection, rejected "
            "application calls, option noise, DEBUG logging.",
     "C02": "Also: payloads that look like the handshake terminator; a third, frame-aligned delivery for conforming sessions.",
-    "C03": "Also: every ordered pair of length classes (and around an empty message) under three deflate configurations; "
+    "C03": "Also: close() with a reason of the wrong type (int, bool, list ...; any code, also None); unequal window sizes with payloads repeating beyond the smaller window; every ordered pair of length classes (and around an empty message) under three deflate configurations; "
            "the socket write of the last call interrupted (EINTR / EAGAIN / timeout / error) before or after half of the frame "
            "went out; DEBUG logging; special code points; every class of unpaired surrogate; a scheduled stage with concurrent writers.",
-    "C04": "Also: violating frames whose payload looks like a format template (every class x variant enumerated); "
+    "C04": "Also: a scheduled stage in which the event loop meets the violation while another thread closes or sends (at most one Close frame); violating frames whose payload looks like a format template (every class x variant enumerated); "
            "DEBUG logging; earlier / second connection; rejected application calls.",
     "C05": "Also: every frame-length class 125..131072 bytes (valid; one invalid byte first / middle / last; a first "
            "fragment of that length ending inside a character); special code points through every carriage; DEBUG logging.",
@@ -20,25 +20,25 @@ MORE = {
            "handlers slower than the poll interval; the simulated socket has no descriptor after close(); realistic clock epoch.",
     "C08": "Also: the write of the client's Close failing without breaking the transport; over TLS; with permessage-deflate; "
            "the server's Close crossing the application's close(); DEBUG logging.",
-    "C09": "Also: permessage-deflate negotiated; a fixed battery (plain/deflate x ws/wss x direct/proxy x closing order); "
+    "C09": "Also: close() must have been CALLED on the socket of an established connection whose transport had not failed; permessage-deflate negotiated; a fixed battery (plain/deflate x ws/wss x direct/proxy x closing order); "
            "each selector-wait position also with every later wait failing.",
-    "C10": "Also: non-ASCII look-alike values and header names; repeated critical headers; malformed status lines; "
+    "C10": "Also: spellings of the accepted extension (parameters, LWS around ; and =, trailing ;, folds); non-ASCII look-alike values and header names; repeated critical headers; malformed status lines; "
            "header blocks at the 16 KiB limit x cuts in the terminator; URL shapes with credentials and IPv6 literals; DEBUG logging.",
-    "C11": "Also: the event loop inflating compressed server messages while others send; large payloads; a first preemption "
+    "C11": "Also: content-overlap scenarios (random bytes vs a payload repeating them); the four-call no-context-takeover scenario in the early-first x second sweep; the event loop inflating compressed server messages while others send; large payloads; a first preemption "
            "inside a locked write x every second preemption; three-preemption chains for three-thread scenarios; a write "
            "lock the library builds itself stays under test (scheduler-aware Lock / RLock / Condition).",
     "C12": "Also: 300-byte and 140 000-150 000-byte frames racing with a Close; in-write x second-preemption sweep; "
            "three-preemption chains (two waiters queued behind a writer).",
-    "C13": "Also: a scheduled stage - gen.close() at a Text event while one or two other threads are inside send_* on the "
+    "C13": "Also: every abandonment after every kind of earlier connection (incl. inside a with-block on the same object); a with-block left by an exception with a long multi-byte text; a scheduled stage - gen.close() at a Text event while one or two other threads are inside send_* on the "
            "same connection; TLS unwrap as fallible I/O; proxy; cross-thread finalisation.",
-    "C14": "Also: DEBUG logging; a violating frame behind the conforming stream; scheduled closer-vs-loop scenarios.",
+    "C14": "Also: Pings around messages of 64 KiB and more delivered in buffer-filling reads, auto_pong on and off; DEBUG logging; a violating frame behind the conforming stream; scheduled closer-vs-loop scenarios.",
     "C15": "Also: the server starting the closing handshake and never dropping the connection (the echo arms close_timeout); "
            "a Close write that takes virtual time; rejected close() calls; 'dropped for no reason'; realistic clock epoch.",
     "C16": "Also: rejections with Retry-After / Location / Refresh / Keep-Alive and a Close 1013 'try again later', through "
            "the fake and the real driver; application calls during attempts; long outages.",
     "C17": "Also: chains through a proxy, over TLS, on objects the application configured (custom headers, sub-protocols, "
            "agent), after a corrupt / truncated compressed message with the same parameters negotiated again; held generators.",
-    "C18": "Also: Pings with non-text payloads between the fragments of fragmented messages; the k-th automatic Pong failing "
+    "C18": "Also: permessage-deflate negotiated; Pings with non-text payloads between the fragments of fragmented messages; the k-th automatic Pong failing "
            "to be written; a violating frame behind the burst; multi-byte text; DEBUG logging.",
     "C19": "Also: proxy-related variables of the real process environment (NO_PROXY ...) with explicit mappings; "
            "percent-encoded credentials; IPv6 targets; malformed status lines; answers at the size limit x cuts in the "
